@@ -18,15 +18,20 @@ RULE = (
     "independent walk checks required fields, list-typed fields, element sorts and complete in-source spans. "
     "Non-trivial = accepted inputs (distinct (text, mode) pairs)."
 )
-SHIFT = 0
-BOUND = {t: _diff.describe(t, USE, VOCABS, SHIFT) + "; xonsh constructs x one-hole contexts depth " + ("1" if t == "quick" else "<=2") for t in ("quick", "thorough")}
+SHIFT = -1  # quick tier: one lexeme shorter than C01 for the python vocabularies (C01 compares those trees completely)
+BOUND = {t: _diff.describe(t, USE, VOCABS, SHIFT) + "; xonsh constructs x one-hole contexts depth <=2; C06 piece sequences <=" + ("3" if t == "quick" else "4") + "; C07 macro inputs; C14 statement pairs" for t in ("quick", "thorough")}
 ASSUMPTIONS = ["CPython 3.12.1's compile() AST validator is the structural reference", "python-lexicon inputs rejected by CPython are skipped (C02 covers their rejection)"]
 
 
 def units(tier: str) -> list[tuple]:
-    from . import c05
+    from . import c05, c06, c07, c14
 
-    return _diff.units(tier, USE, VOCABS, SHIFT) + c05.context_units(tier)
+    us = _diff.units(tier, USE, VOCABS, SHIFT) + c05.context_units(tier)
+    # accepted inputs of the xonsh explorers (C06 piece algebra and dictionary, C07 macros, C14 statement sequences)
+    us += [("x06", u) for u in c06.units(tier) if u[0] in ("alg", "dict")]
+    us += [("x07", u) for u in c07.units("quick")]
+    us += [("x14", u) for u in c14.units("quick")]
+    return us
 
 
 def cases(unit: tuple):
@@ -35,6 +40,23 @@ def cases(unit: tuple):
 
         for c in c05.cases(unit):
             yield c["src"], "exec"
+    elif unit[0] == "x06":
+        from . import c06
+
+        for c in c06.cases(unit[1]):
+            yield c["src"], "exec"
+    elif unit[0] == "x07":
+        from . import c07
+
+        for c in c07.cases(unit[1]):
+            yield (c["src"] if "src" in c else c07._with_src(c)[0]), "exec"
+    elif unit[0] == "x14":
+        from . import c14
+
+        P = c14.pool()
+        for idx in c14.cases(unit[1]):
+            if len(idx) == 2:
+                yield "".join(P[i] for i in idx), "exec"
     else:
         yield from _diff.cases(unit)
 
